@@ -78,6 +78,11 @@ PairNodes == IF Tier = "thorough" THEN VarintNodes ELSE {5, 6, 11, 16, 17, 20, 2
 Mutate2 == /\ pc = "mutated" /\ Len(muts) = 1 /\ muts[1].op = "set" /\ muts[1].node \in PairNodes
            /\ \E m \in {x \in Muts1 : x.op \in {"set", "dup"} /\ x.node \in PairNodes /\ x.node > muts[1].node} : muts' = Append(muts, m)
            /\ pc' = "mutated2" /\ UNCHANGED <<wrap, legacy>>
+\* a profile WITHOUT samples whose tables are broken: the validity contract covers the tables whether or not a sample uses them
+Mutate2NoSamples ==
+           /\ pc = "mutated" /\ Len(muts) = 1 /\ muts[1].op = "drop" /\ muts[1].node = 4
+           /\ \E m \in {x \in Muts1 : x.op \in {"set", "dup"} /\ x.node \in {10, 11, 15, 16, 17, 19, 20, 22, 23}} : muts' = Append(muts, m)
+           /\ pc' = "mutated2" /\ UNCHANGED <<wrap, legacy>>
 Wrap == /\ pc \in {"start", "mutated", "mutated2"}
         /\ \E w \in (IF pc = "mutated2" \/ (pc = "mutated" /\ Tier # "thorough") THEN {"none", "gzip"} ELSE Wraps) : wrap' = w
         /\ pc' = "done" /\ UNCHANGED <<muts, legacy>>
@@ -88,7 +93,7 @@ Legacy == /\ pc = "start"
 Finish == /\ pc = "done" /\ pc' = "end"
           /\ (Emit => PrintT(ToJson([nodes |-> BaseNodes, top |-> BaseTop, muts |-> muts, wrap |-> wrap, legacy |-> legacy])))
           /\ UNCHANGED <<muts, wrap, legacy>>
-Next == Mutate1 \/ Mutate2 \/ Wrap \/ Legacy \/ Finish
+Next == Mutate1 \/ Mutate2 \/ Mutate2NoSamples \/ Wrap \/ Legacy \/ Finish
 Spec == Init /\ [][Next]_vars
 
 \* sanity of the generator: mutations address existing nodes; a legacy case carries no protobuf mutation
